@@ -167,6 +167,7 @@ type handleInfo struct {
 
 type result struct {
 	Err     error
+	ErrText string // error text with the sandbox directory replaced by <sandbox> (the OS sandbox has a per-run name)
 	Kind    string // ok | too-large | <other kind>
 	M       measure
 	Handles []handleInfo // handles opened for writing, with their high-water mark
@@ -180,7 +181,9 @@ var kinds = []struct {
 }{
 	{commonerrors.ErrTooLarge, "too-large"}, {commonerrors.ErrInvalid, "invalid"}, {commonerrors.ErrEOF, "eof"}, {commonerrors.ErrUnexpected, "unexpected"},
 	{commonerrors.ErrUnsupported, "unsupported"}, {commonerrors.ErrNotFound, "not-found"}, {commonerrors.ErrMalicious, "malicious"}, {commonerrors.ErrExists, "exists"},
-	{commonerrors.ErrCancelled, "cancelled"}, {commonerrors.ErrTimeout, "timeout"}, {commonerrors.ErrUndefined, "undefined"}, {commonerrors.ErrUnknown, "unknown"},
+	{commonerrors.ErrCancelled, "cancelled"}, {commonerrors.ErrTimeout, "timeout"}, {commonerrors.ErrUndefined, "undefined"}, {commonerrors.ErrOutOfRange, "out-of-range"},
+	{commonerrors.ErrForbidden, "forbidden"}, {commonerrors.ErrCondition, "failed-condition"}, {commonerrors.ErrConflict, "conflict"}, {commonerrors.ErrEmpty, "empty"},
+	{commonerrors.ErrUnknown, "unknown"},
 }
 
 func kindOf(err error) string {
@@ -252,6 +255,9 @@ func extract(backend, osRoot string, zipBytes []byte, c limitsCfg) (result, erro
 	defer sb.clean()
 	_, xerr := sb.fs.UnzipWithContextAndLimits(context.Background(), sb.src, sb.dest, filesystem.NewLimits(c.File, c.Total, c.Count, c.Depth, c.Rec))
 	r := result{Err: xerr, Kind: kindOf(xerr), M: walk(sb.raw, sb.dest), Mutat: sb.trace.Mutating}
+	if xerr != nil {
+		r.ErrText = strings.ReplaceAll(xerr.Error(), filepath.Dir(sb.src), "<sandbox>")
+	}
 	for _, op := range sb.trace.Log() {
 		switch op.Kind {
 		case vfsx.KOpenFile, vfsx.KCreate:
@@ -346,7 +352,7 @@ func judge(p *prepared, c limitsCfg, t0 result, r result) []finding {
 					out = append(out, finding{fmt.Sprintf("not-refused:%s:%s", dims(v), tag), "the archive expands beyond the limits (T0), the call reported success and left less than T0"})
 				}
 			case honest && r.Kind != "too-large":
-				out = append(out, finding{fmt.Sprintf("wrong-kind:%s:%s:%s", r.Kind, dims(v), tag), "refused, but not with kind 'too large': " + r.Err.Error()})
+				out = append(out, finding{fmt.Sprintf("wrong-kind:%s:%s", r.Kind, tag), "refused, but not with kind 'too large': " + r.ErrText})
 			}
 		}
 	}
@@ -667,7 +673,7 @@ func runJob(rep *ev.Reporter, j job, osRoot string, st *stats) {
 func resultString(r result) string {
 	s := r.Kind
 	if r.Err != nil {
-		e := r.Err.Error()
+		e := r.ErrText
 		if len(e) > 160 {
 			e = e[:160] + "…"
 		}
